@@ -70,6 +70,10 @@ class FsFaults:
                 cuts = list(range(simfs.PAGE, nbytes, simfs.PAGE))
                 return ('torn', cuts[self.tape.draw(len(cuts), 'fault.torn.at')])
             return ('die',)
+        if self.tape.draw(4, 'fault.other') == 3:
+            # an exception that is not an OSError, raised by the code between two operations
+            from checks.c16_store import OneShotFault
+            return ('raise', OneShotFault.OTHER[self.tape.draw(len(OneShotFault.OTHER), 'fault.class')])
         # an error the call can really return
         if kind == 'write':
             if self.tape.draw(2, 'fault.short') and nbytes > 1:
@@ -138,7 +142,8 @@ def gen_program(tape, phase, special):
         for p in range(2):
             for t in range(2 if p == 0 else 1 + tape.draw(2, 'nthr')):
                 ops = [{'kind': 'db2_store' if (j == 0 or tape.draw(3, 'db2.kind')) else 'db2_retrieve',
-                        'model': chosen[tape.draw(len(chosen), 'op.model')]}
+                        'model': chosen[tape.draw(len(chosen), 'op.model')],
+                        'rel': bool(tape.draw(2, 'db2.rel'))}
                        for j in range(1 + tape.draw(2, 'nops'))]
                 threads.append({'pid': p + 1, 'name': f'p{p + 1}.t{t + 1}', 'ops': ops})
         return {'models': chosen, 'threads': threads, 'nproc': 2, 'focus': 7, 'prestore': False}
@@ -290,7 +295,7 @@ def run_one(cfg, tape, want_trace=False):
                     with saved_locks[0](path, shared=shared, blocking=blocking, reentrant=reentrant) as fd:
                         yield fd
                     return
-                inode = os.path.normpath(path)
+                inode = os.path.normpath(os.path.join(os.getcwd(), path))      # the file, not its spelling
                 with mods[vt.pid].path_lock(path, shared=shared, blocking=blocking,
                                             reentrant=reentrant) as fd:
                     if not vt.killed:
@@ -551,7 +556,7 @@ def _check_history(hist, ref, failed_ops, V, stats, simos, k):
                            'later-transaction-in-flight-on-same-key',
                            f'{r["vt"]}: {e["name"]} was committed; an interrupted transaction on the '
                            f'same key left PENDING and the entry is refused')
-                elif isinstance(r['exc'], OSError) and (
+                elif r.get('hit') or isinstance(r['exc'], OSError) and (
                         r['exc'].errno in (errno.ENOSPC, errno.EIO, errno.EMFILE, errno.EACCES) or
                         any(pe[2] == r['exc'].errno for pe in simos.produced_errors)):
                     # the read itself hit an injected error, or the simulated kernel refused
@@ -666,7 +671,7 @@ def _check_history(hist, ref, failed_ops, V, stats, simos, k):
                        'later-transaction-in-flight-on-same-key',
                        f'{r["vt"]}: name {name!r} was committed; an interrupted transaction on the same '
                        f'key left PENDING and the entry is refused')
-            elif isinstance(ex, OSError) and (
+            elif r.get('hit') or isinstance(ex, OSError) and (
                     ex.errno in (errno.ENOSPC, errno.EIO, errno.EMFILE, errno.EACCES) or
                     any(pe[2] == ex.errno for pe in simos.produced_errors)):
                 stats['observed.read_refused_by_environment'] = \
